@@ -48,3 +48,12 @@ func (u *eventDispatcher) addHandler(f func()) {
 	u.cond.Signal()
 	u.cond.L.Unlock()
 }
+
+// broadcastLocked wakes every waiter of c. Taking the lock first closes the window in which a waiter has already
+// checked its condition (a context, a status) but is not yet registered in Wait: a Broadcast issued there is lost,
+// and the waiter - a dispatcher or watcher goroutine of a closed stream or connection - stays behind for good.
+func broadcastLocked(c *sync.Cond) {
+	c.L.Lock()
+	c.Broadcast()
+	c.L.Unlock()
+}
